@@ -121,14 +121,16 @@ def callFeat (doc : Json) (call : Json) : Feat :=
   let schemas : List Json :=
     match k with
     | "visit" => [getD (getD doc "schemas" Json.null) (getStr call "schema") Json.null]
+    -- document validation walks every schema (defaults and examples are validated against their schemas)
+    | "dval" => (objKVs (getD doc "schemas" Json.null)).map (·.2) ++ ops.flatMap (fun o => opSchemas doc o "mw")
     | _ => opSchemas doc (ops.getD (getNat call "op") Json.null) k
   schemas.foldl (fun acc s => acc.merge (schemaFeat (getD doc "schemas" Json.null) s)) {}
 
 def parseKind : String → OpKind
-  | "frg" => .frg | "frl" => .frl | "vreq" => .vreq | "vresp" => .vresp | "visit" => .visit | "mw" => .mw | _ => .gen
+  | "frg" => .frg | "frl" => .frl | "vreq" => .vreq | "vresp" => .vresp | "visit" => .visit | "mw" => .mw | "dval" => .dval | _ => .gen
 
 def kindStr : OpKind → String
-  | .frg => "frg" | .frl => "frl" | .vreq => "vreq" | .vresp => "vresp" | .visit => "visit" | .gen => "gen" | .mw => "mw"
+  | .frg => "frg" | .frl => "frl" | .vreq => "vreq" | .vresp => "vresp" | .visit => "visit" | .gen => "gen" | .mw => "mw" | .dval => "dval"
 
 def defaultsOn (call : Json) : Bool :=
   match getStr call "k" with
